@@ -23,8 +23,10 @@ CLAIMS = {
        "adjacent and carrying the metadata), that the Chunk constructor enforces its range/dtype/type clauses, and that diff is the gap to "
        "the running maximum end. concatenate / merge / Rechunker are not yet under contract (see level_note).",
   note="Also proved: Chunk.concatenate for two chunks of one run (spans both, rows of the first followed by the rows of the second, "
-       "refuses out-of-order chunks) and that Chunk.split hands each half the split of the subruns. Not proved: concatenate across "
-       "runs (superrun bookkeeping), Chunk.merge, Rechunker.receive/flush/get_splits - bounded stand-ins. Trusted: pyvc, z3/cvc5, library models (slicing, min/max, ndarray.max, copy), "
+       "refuses out-of-order chunks, result well-formed), Chunk.merge for two chunks, Rechunker.get_splits, Rechunker.receive (with and "
+       "without a cached chunk: every row is handed out once or kept, pieces contiguous) and flush, and that Chunk.split hands each "
+       "half the split of the subruns. Not proved: concatenate across runs (superrun bookkeeping); strax.merge_arrs is an assumed "
+       "contract. Trusted: pyvc, z3/cvc5, library models (slicing, min/max, ndarray.max, copy), "
        "integers mathematical, numba faithful to the Python source (cross-checked on each stand-in input).",
   technique="contract-based deductive verification (sidecar contracts, loop invariants, AST->VC generator, z3/cvc5)",
   design_ref="DESIGN.md section 6, C07"),
@@ -242,7 +244,9 @@ CLAIMS = {
        "Context.merge_per_chunk_storage files the merged data under the key of the complete data type only if the groups reach from the "
        "first to the last chunk of the dependency; dry_load_files reads every chunk for None, exactly the named chunks for a list and "
        "exactly that chunk for a number; StorageBackend._read_format_split_chunk (rechunk on load) hands out pieces that are contiguous, "
-       "carry the rows of the read chunk in order and cover it to its end (given the assumed contract of Rechunker.get_splits) - and of the "
+       "carry the rows of the read chunk in order and cover it to its end, using the contract of Rechunker.get_splits, which is itself "
+       "proved (split indices start at 0, increase strictly, each follows a gap larger than min_gap to every earlier row; argmin is never "
+       "taken of an empty candidate list) - and of the "
        "two ends every copy / rewrite goes through: "
        "StorageBackend._read_and_format_chunk builds a chunk only from rows whose count equals the recorded count (DataCorrupted "
        "otherwise) and gives it exactly the recorded start / end / run id / subruns; Saver.save_from / Saver.save write every chunk they "
@@ -252,7 +256,7 @@ CLAIMS = {
        "merge_per_chunk_storage load to exactly the original rows with consistent metadata and an intact source is a bounded stand-in "
        "on the real code (the earlier defects F8 and F13 found here are fixed).",
   note="Not proved: the data path of copy_to_frontend / merge_per_chunk_storage (their wrapped loaders), file_rechunker.rechunker, "
-       "Rechunker.get_splits (assumed contract) and the Rechunker, the codecs - bounded stand-in only.",
+       "the codecs - bounded stand-in only. Library models: np.argwhere / argmin / np.array(list).",
   technique="contract-based deductive verification (obligations at the Chunk constructor call via hooks; Saver contracts) + bounded stand-in on the real code",
   design_ref="DESIGN.md section 6 (C16) and 10"),
  "C01": dict(
